@@ -115,7 +115,7 @@ def _replay(rec: Dict[str, Any]) -> List[Tuple[str, Dict[str, Any], str]]:
                     disc = "document-modified"
                 elif [canon(tag(c)) for c in ctxs] != pc:
                     disc = "filter-context-modified"
-                elif str(path) != text0 or path.selectors is not sels0 or hash(path) != hash0:
+                elif str(path) != text0 or path.selectors != sels0 or hash(path) != hash0:
                     disc = "compiled-query-modified"
             if disc:
                 break
